@@ -115,6 +115,7 @@ FOREIGN = {
         (("rules.shared_count", "count_rule", "facts"), "a partially accepted write is accounted as exactly the accepted bytes: retrying the rest is legal use"),
     ],
     "C19": [
+        (("rules.C01", "patchoff_rules", "ctx"), "the stored name bytes are not overwritten: the ZIP64 back-patch lands behind the name's BYTE length"),
         (("rules.shared_count", "exact_rule", "facts"), "name and comment bytes are read with exact-length primitives (a bare read() truncates them on a short read)"),
     ],
     "C20": [
